@@ -126,6 +126,7 @@ type hist = {
   mutable ubytes : n;                      (* uniform history: bytes allocated since the last reset *)
 }
 
+let xc_seen = ref 0
 let neq_zero (x : n) = (match x with N0 -> false | _ -> true)
 
 let kv_of s =
@@ -281,6 +282,19 @@ let handle_op (h : hist) (line : string) =
     if kind = "alloc" && (List.mem "probe_c18" args || List.mem "probe_c18cap" args) && (o.reqs <> [] || not impl_ok) then
       report_spec ~prop:"C18" ~pred:(if List.mem "probe_c18" args then "capacity_not_overstated" else "constructor_capacity_honoured")
         ~detail:(ires ^ "_reqs=" ^ string_of_int (List.length o.reqs));
+    (* sample for the extraction-independent cross-check: the fast path on the model state *)
+    (match mi.mop with
+     | OAlloc l ->
+       incr xc_seen;
+       if !xc_seen mod 211 = 1 && !xc_seen < 211 * 60 then begin
+         let st = cur_start k b0 and pt = cur_ptr k b0 in
+         let cfgs = Printf.sprintf "(mkCfg %s %s %s %s %s %s %s)" (string_of_n k.k_footer) (string_of_n k.k_calign) (string_of_n k.k_overhead)
+             (string_of_n k.k_default) (string_of_n k.k_page) (string_of_n k.k_malign) (string_of_n k.k_eaddr) in
+         Printf.printf "XC fast_ptr %s %s %s (mkLayout %s %s) === %s\n" cfgs (string_of_n st) (string_of_n pt)
+           (string_of_n l.l_size) (string_of_n l.l_align)
+           (match fast_ptr k st pt l with Some q -> "Some " ^ string_of_n q | None -> "None")
+       end
+     | _ -> ());
     (* C07: chunks obtained under a limit *)
     let lim_before = b0.limit in
     let ab_run = ref h.p_ab in
